@@ -14,7 +14,7 @@ from ..gen import docs
 
 ID = "C06"
 BUDGET = {"quick": 1600, "thorough": 40000}
-CASE_TIMEOUT = 60
+CASE_TIMEOUT = float(os.environ.get("VERIF_C06_TIMEOUT", "45"))
 SHRINK_BUDGET = 150
 RULE = ("cases: (a) byte strings as .json/.yaml/.yml files, (b) arbitrary JSON values as the whole document, "
         "(c) valid generated documents with 1-4 junk mutations (replace/delete/duplicate a node at any depth; junk = "
@@ -24,7 +24,7 @@ RULE = ("cases: (a) byte strings as .json/.yaml/.yml files, (b) arbitrary JSON v
 ASSUMPTIONS = [
     "post-hooks are disabled, so an ERROR-level diagnostic always means the document itself was rejected",
     "CLI is driven in-process through typer's CliRunner; a subprocess is used only to confirm suspected hangs",
-    "a hang is only reported after the case also exceeds a 120 s limit alone in a fresh interpreter",
+    "a hang is only reported after the case exceeds 45 s in-process and then 100 s alone in a fresh interpreter",
     "YAML alias bombs are not generated (they endanger the harness); alias nesting is at most what 300 random bytes allow",
 ]
 
@@ -314,10 +314,12 @@ def on_timeout(case, ctx):
     with open(p, "w") as f:
         json.dump(case, f)
     try:
-        subprocess.run([sys.executable, "-m", "engine.main", "C06", "--replay", p], cwd=env.VERIF, timeout=120,
-                       env={**os.environ, "VERIF_C06_CONFIRMING": "1", "VERIF_CASE_TIMEOUT": "110"},
-                       capture_output=True)
-        ctx.label("timeout-unconfirmed")
+        r = subprocess.run([sys.executable, "-m", "engine.main", "C06", "--replay", p], cwd=env.VERIF, timeout=200,
+                           env={**os.environ, "VERIF_C06_CONFIRMING": "1", "VERIF_C06_TIMEOUT": "100"}, capture_output=True)
+        if r.returncode == 1 and b"clause=terminates" in r.stdout:
+            ctx.violation("terminates", {"stage": "confirmed"}, "no result after 45 s in-process and 100 s alone in a fresh interpreter")
+        else:
+            ctx.label("timeout-unconfirmed")
     except subprocess.TimeoutExpired:
-        ctx.violation("terminates", {"stage": "confirmed"}, "no result after 60 s in-process and 120 s alone")
+        ctx.violation("terminates", {"stage": "confirmed"}, "no result after 45 s in-process and 200 s alone")
     env.rm(d)
